@@ -130,6 +130,7 @@ pub fn gen_case(t: &mut Tape) -> Case {
     prog.mods[obs].impls.push(Impl {
         ty: "Obs".into(),
         funcs: vec![Func {
+            more: vec![],
             sty: 0,
             vis: true,
             name: "m".into(),
